@@ -53,9 +53,17 @@ def hash_tree(paths):
 
 
 def tree_key(family, tier, seed):
-    return hash_tree([os.path.join(REPO, "include"), os.path.join(REPO, "src", "example", "pegtl"),
-                      os.path.join(VERIF, "harness"), os.path.join(VERIF, "gen"), SPEC,
-                      os.path.join(VERIF, "bin", "vlib.py")]) + "-%s-%s-%d" % (family, tier, seed)
+    """cache key: everything the family's result depends on (so any edit under /repo forces a rebuild)"""
+    H, S = os.path.join(VERIF, "harness"), SPEC
+    common = [os.path.join(REPO, "include"), os.path.join(REPO, "src", "example", "pegtl"), os.path.join(VERIF, "gen"),
+              os.path.join(VERIF, "bin", "vlib.py"), os.path.join(H, "vtrace.hpp"), os.path.join(S, "PegDen.tla")]
+    if family.startswith("obs_"):
+        deps = common + [os.path.join(H, "obs_main.cpp"), os.path.join(S, "ObsContract.tla"), os.path.join(S, "TraceObs.tla"),
+                         os.path.join(S, "TraceObs.cfg")]
+    else:
+        deps = common + [os.path.join(H, f) for f in sorted(os.listdir(H)) if f != "obs_main.cpp" and not f.startswith("obs_")]
+        deps += [os.path.join(S, f) for f in sorted(os.listdir(S)) if f.startswith(("PegContract", "TraceContract", "TraceMachine", "PegMachine"))]
+    return hash_tree(deps) + "-%s-%s-%d" % (family, tier, seed)
 
 
 def run(cmd, timeout, cwd=None, env=None, stdout=subprocess.PIPE):
